@@ -224,6 +224,8 @@ static void reset(void)
 	aatree_init(&tree, cmp_cb, release_cb);
 }
 
+static int quiet_ops;	/* perms mode: perform the op, do not render/hash its line */
+
 static void op_ins(long long k)
 {
 	struct N *x = calloc(1, sizeof *x);
@@ -237,7 +239,8 @@ static void op_ins(long long k)
 	linked = aatree_search(&tree, (uintptr_t)(intptr_t)k) == &x->n;
 	if (!linked)
 		free(x);
-	mut_line(linked ? "ins=1" : "ins=0", 0);
+	if (!quiet_ops)
+		mut_line(linked ? "ins=1" : "ins=0", 0);
 }
 
 static void op_rem(long long k)
@@ -276,7 +279,8 @@ static int parse_nat(const char *s, long *out)
 
 /* perms n ilo ihi jlo jhi: for every insertion order i in [ilo,ihi) and removal order j in
  * [jlo,jhi) of the keys 1..n: fresh tree, insert in order i, remove in order j.  Answers the
- * hashes of all op output lines (observable ## internal). */
+ * hashes (observable ## internal) of the op output lines in this order: for each i the n
+ * insertion lines once, then for each j the n removal lines. */
 static int op_perms(char **w)
 {
 	long n, ilo, ihi, jlo, jhi, i, j;
@@ -294,7 +298,9 @@ static int op_perms(char **w)
 		for (j = jlo; j < jhi; j++) {
 			nth_perm(n, j, pj);
 			reset();
+			quiet_ops = (j != jlo);
 			for (t = 0; t < n; t++) op_ins(pi[t]);
+			quiet_ops = 0;
 			for (t = 0; t < n; t++) op_rem(pj[t]);
 		}
 	}
